@@ -138,6 +138,8 @@ def run(check, repo: Repo) -> None:
     # that the LAST write before the return is the tie (a per-slice mask or filter after it can make the slices differ again) and that nothing unknown runs
     tied_last = len(kinds) >= 2 and kinds[-2] == "tie"
     kinds_eff = [k for i, k in enumerate(kinds) if not (k == "tie" and i != len(kinds) - 2)] if tied_last else kinds
+    if "mask" not in kinds_eff:
+        want = [k for k in want if k != "mask"]  # the field-of-view mask only attenuates: leaving it out cannot make an admissible object inadmissible
     check.decide(kinds_eff == want, "C10-R1", "after the admissible-making step only: [0,1] mask, optional smoothing (excluded), slice tying as the last write, return",
                  str(kinds), omod.line(ahc), definite=all(not k.startswith("?") for k in kinds) and not tied_last,
                  fail_detail=f"statements after the type block are {kinds}; expected {want}: an extra operation after the clamp/unit-modulus step (or tying that "
@@ -225,8 +227,11 @@ def run(check, repo: Repo) -> None:
     resets = [n for c in calls_in(rec_) if (call_name(c) or "") == "self.reset_recon" for n in rcfg_.node_containing(c)]
     if not cst or not resets:
         raise AnalysisError("Ptychography.reconstruct: `self.constraints = …` / `self.reset_recon()` not found")
-    late = [r for r in resets for c_ in cst if r in rcfg_.reachable_from(c_)]
-    check.decide(not late and "constraints" in names_in(rcfg_.nodes[cst[0]].stmt.value), "C10-R4",
+    # what counts is that every path from the reset to the exit passes a store of the requested constraints (an additional, earlier store is overwritten
+    # by the reset and then re-installed: harmless)
+    good_ = [c_ for c_ in cst if "constraints" in names_in(rcfg_.nodes[c_].stmt.value)]
+    late = [r for r in resets if not (good_ and rcfg_.all_paths_pass_through(r, rcfg_.exit, good_))]
+    check.decide(not late and bool(good_), "C10-R4",
                  "reconstruct installs the requested constraints after the reset (the reset restores default constraints)", "", tmod_.line(rcfg_.nodes[cst[0]].stmt),
                  fail_detail="self.reset_recon() can run after `self.constraints = constraints`: with reset=True the constraints requested for this call are wiped before the first iteration — "
                              "e.g. identical_slices / positivity are not applied")
